@@ -142,6 +142,10 @@ def gen_world(rng, index):
     iso = {"kind": "point", "material": material, "adsorbate": ads, "temperature": temp_val,
            "units": labels, "meta": meta, "pressure": p, "loading": l, "branch": branch, "other": other,
            "route": "frame" if (other or rng.random() < 0.3) else "arrays"}
+    if iso["route"] == "frame" and rng.random() < 0.3:
+        iso["keys"] = rng.choice([["p", "q"], ["P/bar", "uptake"], ["loading", "pressure"]])   # custom (even swapped) column names
+        if isinstance(branch, list) and rng.random() < 0.5:
+            iso["branch_in_frame"] = True
     return {"adsorbates": [user_ads] if user_ads else [], "iso": iso, "T_K": T,
             "ads_class": cls, "mat_class": mcls}
 
